@@ -93,7 +93,7 @@ func isSelectorChain(e ast.Expr) bool {
 
 func (v *FnView) condsAt(n ast.Node) []string {
 	var out []string
-	for _, f := range v.FactsAt(n, false) {
+	for _, f := range v.factsAt(n, false) {
 		s := exprString(f.Atom)
 		if !f.Truth {
 			s = "!" + s
